@@ -23,6 +23,22 @@ from . import c06
 PROP = "C10"
 
 
+def _used_queue(nr, nt, dt, preload):
+    """A queue for a continued run: it holds the deliveries of `preload` (slot k = k*dt after the start).  When it holds
+    any, it is a queue that has been in use: its ring was turned by a number of steps that is not a multiple of its
+    length and its clock was set back to 0 before the deliveries were entered - by DelayQueue.tla (the ring refines a
+    bag of (time, reaction) entries) indistinguishable from a fresh queue with the same entries."""
+    from bioscrape.simulator import ArrayDelayQueue
+    q = ArrayDelayQueue.setup_queue(nr, nt, dt)
+    if preload and nt > 1:
+        for _ in range(1 + (len(preload) + sum(k for k, _, _ in preload)) % (nt - 1)):
+            q.py_advance_time()
+        q.py_set_current_time(0.0)
+    for k, rr, c in preload:
+        q.py_add_reaction(k * dt, rr - 1, float(c))
+    return q
+
+
 def draws_for(steps):
     d = []
     for st in steps:
@@ -59,9 +75,7 @@ def impl_replay(job):
             else:
                 itf = SafeModelCSimInterface(m) if rec["safe"] else ModelCSimInterface(m)
                 itf.py_set_dt(dt)
-                q = ArrayDelayQueue.setup_queue(nr, nt, dt)
-                for k, rr, c in rec.get("preload", []):          # a queue that already holds deliveries (continued run)
-                    q.py_add_reaction(k * dt, rr - 1, float(c))
+                q = _used_queue(nr, nt, dt, rec.get("preload", []))
                 r = DelaySSASimulator().py_delay_simulate(itf, q, tp)
             used, _, under = brandom.py_verif_script_status()
             brandom.py_verif_script(None)
@@ -218,9 +232,7 @@ def impl_replay_dv(job):
             else:
                 itf = SafeModelCSimInterface(m) if rec["safe"] else ModelCSimInterface(m)
                 itf.py_set_dt(dt)
-                q = ArrayDelayQueue.setup_queue(nr, nt, dt)
-                for k, rr, c in rec.get("preload", []):
-                    q.py_add_reaction(k * dt, rr - 1, float(c))
+                q = _used_queue(nr, nt, dt, rec.get("preload", []))
                 r = DelayVolumeSSASimulator().py_delay_volume_simulate(itf, q, vol, tp)
             used, _, under = brandom.py_verif_script_status()
             brandom.py_verif_script(None)
